@@ -405,6 +405,21 @@ func (e *kvElection) becomeLeader(token string, rev uint64) {
 		return
 	}
 
+	// Two acquisition attempts of the same instance can both succeed at
+	// different times (a response delayed beyond the record's TTL, a leftover
+	// round). The instance already leads a term of its own: starting another one
+	// on top of it would replace the token and revision its heartbeat depends on
+	// and fire OnPromote a second time without a demotion in between.
+	if e.isLeader.Load() {
+		log := e.getLogger()
+		log.Warn("acquire_completed_while_leader_ignored",
+			append(e.logWithContext(e.ctx),
+				zap.Uint64("revision", rev),
+			)...,
+		)
+		return
+	}
+
 	// Health failures are counted per term: what a previous term left behind
 	// must not bring the demotion threshold closer for this one.
 	e.healthFailureCount.Store(0)
